@@ -36,10 +36,11 @@ def analyse(ctx, prog, chk):
     chk.used_program(prog)
     fam = family(prog)
     ns = expsib.rule_sm_sign(ctx, prog, chk, fam, FAM)
+    nb = expsib.rule_loop_bits(ctx, prog, chk, fam)
     nr = alias.rule_out_rbw(ctx, prog, chk, lambda fn: fn.rfile.startswith("src/ed/"), re.compile(r"^ed_t\b"))
     na = alias.rule(ctx, prog, chk, lambda fn: fn.rfile.startswith("src/ed/"), POINT_ALIAS_OK, points=True)[0]
     nc = c02.rule_const_in(ctx, prog, chk, prefix=("src/ed/",))
-    return {"sign": ns, "rbw": nr, "const": nc, "palias": na}
+    return {"sign": ns, "rbw": nr, "const": nc, "palias": na, "bits": nb}
 
 
 def selfcheck(ctx, prog, chk):
@@ -49,6 +50,7 @@ def selfcheck(ctx, prog, chk):
 def run(ctx, chk):
     c = analyse(ctx, ctx.program("BASE"), chk)
     chk.floor("SM-SIGN", "scalar parameters of the multiplication siblings", c["sign"], 20)
+    chk.floor("LOOP-BITS", "bit scans of scalars", c["bits"], 4)
     chk.floor("OUT-RBW", "output points of functions that also take an input point", c["rbw"], 35)
     chk.floor("ALIAS-RW", "output/input pairs of single points", c["palias"], 35)
     chk.floor("CONST-IN", "const pointer parameters of the module", c["const"], 60)
